@@ -48,7 +48,9 @@ def run(tier):
         cfgp = write_cfg("Surface_%d.cfg" % d, "SPECIFICATION Spec\nCONSTANTS\n  D = %d\n  MaxP = %d\nCONSTRAINT Bound\nINVARIANT Dump\nCHECK_DEADLOCK FALSE\n" % (d, maxp))
         bs = tlc_generate("Surface.tla", cfgp, "sim", num=num, depth=d * 8 + 4, timeout=2400, tag="c01g")[:num]
         for x in bs:
-            scen.append({"cfg": x[0], "src": "tlc-sim", "steps": x[1:] + [{"act": "cb", "p": [2]}, {"act": "cb", "p": [3]}]})
+            # epilogue of every history: two callbacks (everything is picked up), a device sample-rate change, two more callbacks
+            scen.append({"cfg": x[0], "src": "tlc-sim", "steps": x[1:] + [{"act": "cb", "p": [2]}, {"act": "cb", "p": [3]},
+                                                                         {"act": "rate", "p": [x[0]["rate"] + 1 + len(scen) % 2]}, {"act": "cb", "p": [2]}, {"act": "cb", "p": [4]}]})
     # the known finding D22 (callback time grows with the playback rate): one dedicated history, last (a hang ends the run)
     scen.append({"cfg": {"buf": 1, "rate": 0, "ch": 1, "cap": 2}, "src": "known-D22-fast-rate",
                  "steps": [{"act": "add_static", "p": [4, 0, 1, 0, 99, 2, 1, 0, 0, 2, 0]}, {"act": "cb", "p": [2]}, {"act": "cb", "p": [2]}]})
